@@ -670,8 +670,8 @@ PLANS["C18"]["rule"] += "; family lp with leak=1: for every LP of T and S0q1 the
 PLANS["C18"]["evidence"] = {"states": sorted(set(PLANS["C18"]["evidence"]["states"] + ["instances"])), "transitions": sorted(set(PLANS["C18"]["evidence"]["transitions"] + ["leak_probes"])), "nontrivial": PLANS["C18"]["evidence"]["nontrivial"]}
 
 # multiple partial pricing on the catalogue's wide LPs (candidate buckets of 100 entries), direct primal and dual simplex and the exact driver
-_PART = [fam("meta-CAT-partial-primal-san", "san", "meta", {"fam": "CAT", "depth": 1, "partial": 2, "algo": "primal", "ncat": 14}, weight=2, crash_props=["C17", "C15"], timeout=900),
-         fam("meta-CAT-partial-dual-san", "san", "meta", {"fam": "CAT", "depth": 1, "partial": 2, "algo": "dual", "ncat": 14}, weight=2, crash_props=["C17", "C15"], timeout=900)]
+_PART = [fam("meta-CAT-partial-primal-san", "san", "meta", {"fam": "CAT", "depth": 1, "partial": 2, "algo": "primal", "ncat": 14}, weight=2, crash_props=["C17", "C15"], timeout=900)
+         ]   # the direct dual simplex with multiple partial pricing needs minutes per catalogue LP in rational arithmetic: left out
 PLANS["C17"]["quick"] = PLANS["C17"]["quick"] + _PART
 PLANS["C17"]["thorough"] = PLANS["C17"]["thorough"] + _PART
 PLANS["C15"]["quick"] = PLANS["C15"]["quick"] + [fam("meta-CAT-partial-primal", "prod", "meta", {"fam": "CAT", "depth": 1, "partial": 1, "algo": "primal"}, weight=1, crash_props=["C17", "C15"], timeout=900)]
